@@ -62,6 +62,19 @@ CLAIMED['C14'] = dict(
         "filtered_context, iter_*_specs, auto-generated category names (_get_new_autogen_category assumed), 'first "
         "among equally long' specials")
 
+CLAIMED['C17'] = dict(
+   text="Unbounded proof that a state derived by sub_context() satisfies PS_inv (every cached table equals the value a "
+        "fresh state with the same public fields computes): verification conditions are generated from the AST of the "
+        "three _finalize_state_* methods with each recompute branch abstracted as an uninterpreted function of exactly "
+        "the attributes it reads (transitively through earlier tables); the obligation 'inherited value == freshly "
+        "computed value' holds iff the inherit guard mentions every field in that read-set. sub_context/__init__/"
+        "set_fields/get_fields/_safe_eq are executed symbolically over abstract field values: fields not recorded as "
+        "changed keep the parent's value, the receiver is not written. An AST scan shows tokenizer and parsers read "
+        "only public fields and tables covered by PS_inv.",
+   ref="DESIGN.md section 5, C17",
+   note=NOTE + "; the recompute code itself is uninterpreted (a change there affects derived and fresh states alike); "
+        "'behaves identically' follows from equal tables + the reader scan, stated not mechanised")
+
 NA = {
 }
 DEFAULT_NA = "check not built yet (work in progress; see DESIGN.md section 5 for the planned contracts)"
